@@ -292,7 +292,8 @@ def build_class(model, consts, cls):
         indet = (d == 'INDET')
         known = (d is not None) and not indet
         finfo.append({'name': f['path'], 'kind': list(f['kind']), 'hasInit': not indet,
-                      'dflt': d if known else 0, 'dfltKnown': known or indet, 'owner': f['owner']})
+                      'dflt': d if known else 0, 'dfltKnown': known or indet, 'owner': f['owner'],
+                      'isBool': f.get('dtype') == 'bool'})
     ctor_type = dfl.get('objectType')
     notes = [k for k in dfl if k.startswith('#')]
     return {'name': cls, 'fields': finfo, 'read': r, 'write': w, 'size': size, 'hsize': hsize,
